@@ -25,6 +25,9 @@ struct Task {
 	std::function<bool()> wake; long deadline = -1;
 	unsigned long spin = 0, spin_parks = 0;
 	bool threw_std = false, threw_other = false, aborted = false; std::string exc;
+	pthread_cond_t cv;     // one condition variable per task: a baton pass wakes only the chosen task
+	Task() { pthread_cond_init(&cv, 0); }
+	~Task() { pthread_cond_destroy(&cv); }
 };
 extern thread_local Task *tl_task;
 
@@ -68,12 +71,12 @@ struct Sched {
 			if (on_stall && on_stall()) continue;
 			hung = true; aborting = true;     // tear the case down
 		}
-		pthread_cond_broadcast(&cv);
+		if (current >= 0) pthread_cond_signal(&tasks[current]->cv);
 	}
 	static void *tramp(void *p) {
 		Task *t = (Task *)p; Sched *s = t->s;
 		pthread_mutex_lock(&s->mu);
-		while (s->current != t->id) pthread_cond_wait(&s->cv, &s->mu);
+		while (s->current != t->id) pthread_cond_wait(&t->cv, &s->mu);
 		pthread_mutex_unlock(&s->mu);
 		tl_rng = &t->rng; tl_task = t;
 		if (!s->aborting) {
@@ -92,7 +95,7 @@ struct Sched {
 		pthread_mutex_lock(&mu);
 		t->st = Task::WAITING; t->wake = wake; t->deadline = deadline; t->spin = 0;
 		pick_next();
-		while (current != t->id) pthread_cond_wait(&cv, &mu);
+		while (current != t->id) pthread_cond_wait(&t->cv, &mu);
 		t->wake = nullptr; t->deadline = -1;
 		bool ab = aborting;
 		pthread_mutex_unlock(&mu);
@@ -102,7 +105,7 @@ struct Sched {
 		Task *t = tl_task;
 		pthread_mutex_lock(&mu);
 		t->st = Task::RUNNABLE; t->spin = 0; pick_next();
-		while (current != t->id) pthread_cond_wait(&cv, &mu);
+		while (current != t->id) pthread_cond_wait(&t->cv, &mu);
 		bool ab = aborting;
 		pthread_mutex_unlock(&mu);
 		if (ab) throw TaskAbort();
